@@ -27,7 +27,16 @@ func init() {
 // childC09dot: chdir into the directory and walk it as "." (the working directory is per process): prints the reported
 // paths as JSON.
 func childC09dot(args []string) int {
-	if len(args) < 1 || os.Chdir(args[0]) != nil {
+	if len(args) < 1 {
+		return 3
+	}
+	where := args[0]
+	if len(args) > 1 && args[1] == "pwdlink" {
+		// the shell got here through a symlink: $PWD is the logical path
+		where = args[0] + ".lnk"
+		os.Setenv("PWD", where)
+	}
+	if os.Chdir(where) != nil {
 		return 3
 	}
 	type ent struct{ P, SP, L string }
@@ -409,9 +418,19 @@ func judgeC09Raw(c c09Case) (string, string) {
 		for _, n := range snap {
 			dotTop = dotTop || (strings.HasPrefix(n.Path, ".") && !strings.Contains(n.Path, "/"))
 		}
-		if dotTop {
+		for _, how := range []string{"", "pwdlink"} {
+			if !dotTop {
+				break
+			}
+			if how == "pwdlink" {
+				os.Remove(dir + ".lnk")
+				if os.Symlink(filepath.Base(dir), dir+".lnk") != nil {
+					break
+				}
+				defer os.Remove(dir + ".lnk")
+			}
 			self, _ := os.Executable()
-			cmd := exec.Command(self, "child", "c09dot", dir)
+			cmd := exec.Command(self, "child", "c09dot", dir, how)
 			var stderr strings.Builder
 			cmd.Stderr = &stderr
 			b, err := cmd.Output()
